@@ -14,10 +14,12 @@ vars == <<d, mq, rels, k, sels>>
 a_ == <<97>>  b_ == <<98>>  x_ == <<120>>  y_ == <<121>>  z_ == <<122>>  p_ == <<112>>  q_ == <<113>>  n1_ == <<49>>
 S(t) == Str(t)
 DocSeq == <<
-  Obj(<<a_, b_, n1_>>,
+  Obj(<<a_, b_, n1_, p_, q_>>,
       << Obj(<<x_, y_, z_>>, <<IntV(1), Arr(<<IntV(10), IntV(20), IntV(30)>>), Obj(<<p_, q_>>, <<IntV(0), Bool(FALSE)>>)>>),
          Arr(<<Obj(<<x_, y_>>, <<IntV(1), IntV(2)>>), Obj(<<x_, y_>>, <<S(<<>>), Null>>), Arr(<<IntV(5), IntV(6), IntV(7)>>)>>),
-         Obj(<<n1_, x_>>, <<S(<<111, 110, 101>>), Arr(<<>>)>>) >>),
+         Obj(<<n1_, x_>>, <<S(<<111, 110, 101>>), Arr(<<>>)>>),
+         S(<<123, 34, 120, 34, 58, 32, 49, 125>>),         \* the string {"x": 1}: JSON text is still a primitive
+         S(<<91, 49, 44, 32, 50, 93>>) >>),                \* the string [1, 2]
   Arr(<<Arr(<<IntV(0), Arr(<<IntV(1), IntV(2)>>), IntV(3)>>), Obj(<<x_>>, <<Arr(<<Obj(<<y_>>, <<IntV(0)>>), Obj(<<y_>>, <<Bool(FALSE)>>)>>)>>), IntV(4)>>) >>
 
 MatchQueries == { Q("$", <<Child(SName(a_))>>), Q("$", <<Child(SName(b_)), Child(SWild)>>), Q("$", <<Child(SName(b_))>>), Q("$", <<>>),
@@ -28,7 +30,9 @@ RelQueries == { Q("$", <<Child(SName(x_))>>), Q("$", <<Child(SName(y_))>>), Q("$
                 Q("$", <<Child(SName(z_)), Child(SName(p_))>>), Q("$", <<Child(SName(z_)), Child(SName(q_))>>), Q("$", <<Child(SWild)>>), Q("$", <<Child(SIndex(0))>>),
                 Q("$", <<Child(SIndex(1)), Child(SName(x_))>>), Q("$", <<Child(SWild), Child(SName(x_))>>), Q("$", <<Seg(FALSE, <<SIndex(0), SIndex(2)>>)>>),
                 Q("$", <<Child(SIndex(2)), Child(SIndex(1))>>), Q("$", <<Child(SName(b_))>>), Q("$", <<Child(SName(n1_))>>), Q("$", <<Child(SWild), Child(SName(y_))>>),
-                Q("$", <<Child(SIndex(1)), Child(SName(x_)), Child(SWild), Child(SName(y_))>>), Q("$", <<Child(SName(x_)), Child(SIndex(1))>>) }
+                Q("$", <<Child(SIndex(1)), Child(SName(x_)), Child(SWild), Child(SName(y_))>>), Q("$", <<Child(SName(x_)), Child(SIndex(1))>>),
+                \* negative indices address the same elements as their normalized spelling
+                Q("$", <<Child(SName(y_)), Child(SIndex(-1))>>), Q("$", <<Child(SIndex(-1))>>), Q("$", <<Child(SIndex(-1)), Child(SName(x_))>>) }
 
 Matches == Eval(mq, DocSeq[d])
 \* selections of one relative query below one match, locations relative to the match
